@@ -7,7 +7,7 @@
     is outside the model (the property says "up to rounding"). *)
 From Coq Require Import Reals List.
 From SV Require Import Rot.RotBase Gen.RotFormulas_gen Rot.RotAlgebra Rot.RotAliasProofs Rot.RotEuler Rot.RotEulerProofs
-  Rot.RotDispatch Rot.RotDispatchProofs Rot.RotMixedProofs Gen.RotDispatch_gen.
+  Rot.RotDispatch Rot.RotDispatchProofs Rot.RotMixedProofs Gen.RotDispatch_gen Rot.RotGJ Rot.RotGJProofs.
 Open Scope R_scope.
 
 (** ** Every matrix built from an Euler angle is a proper rotation *)
@@ -57,6 +57,19 @@ Theorem c04_rotation_inverse_is_transpose : forall m, rotation m ->
   mat_mul m (transpose m) = I3 /\ mat_mul (transpose m) m = I3 /\
   (forall n, mat_mul n m = I3 -> n = transpose m) /\ (forall n, mat_mul m n = I3 -> n = transpose m).
 Proof. exact rotation_inverse_is_transpose. Qed.
+
+(** ** inverse() itself (Gauss-Jordan with partial pivoting).  [p] ranges over the straight-line programs of row operations
+    that the translator can read out of MatrixBase.inverse (Gen/RotInverse_gen.v: [inverse_prog]); [gj_prog_ok] is the
+    decidable acceptance test (abstract interpretation of the left block) that the check discharges for today's source;
+    [gj_inverse Rnum p] is the interpreter over the reals, the same Gallina function that is compared bit for bit with
+    the implementation over IEEE doubles.  Whenever inverse() returns, the result is a left inverse ... *)
+Theorem c04_gauss_jordan_inverse : forall p, gj_prog_ok p = true ->
+  forall m n, gj_inverse Rnum p (rows_of m) = GOk n -> mat_mul (mat_of n) m = I3.
+Proof. exact gauss_jordan_inverse. Qed.
+(** ... so on a rotation inverse() returns exactly the transpose. *)
+Theorem c04_inverse_is_transpose_on_rotations : forall p, gj_prog_ok p = true ->
+  forall m n, rotation m -> gj_inverse Rnum p (rows_of m) = GOk n -> mat_of n = transpose m.
+Proof. exact gauss_jordan_inverse_rotation. Qed.
 
 (** ** Matrix -> Angle -> Matrix.  libm's atan2 enters only through the visible premise [atan2_spec]. *)
 Theorem c04_euler_roundtrip : forall atan2, atan2_spec atan2 ->
